@@ -1,6 +1,7 @@
 package wsflate
 
 import (
+	"bytes"
 	"fmt"
 	"strconv"
 
@@ -162,11 +163,14 @@ func isValidBits(x int) bool {
 }
 
 func bitsFromASCII(p []byte) (WindowBits, bool) {
-	n, ok := httphead.IntFromASCII(p)
-	if !ok || !isValidBits(n) {
-		return 0, false
+	// The value must be a decimal integer without leading zeroes between 8
+	// and 15, that is, exactly one of the strings Option() writes.
+	for i, b := range windowBits {
+		if bytes.Equal(p, b) {
+			return WindowBits(i + 8), true
+		}
 	}
-	return WindowBits(n), true
+	return 0, false
 }
 
 func setBits(opt *httphead.Option, name []byte, bits WindowBits) {
